@@ -162,8 +162,8 @@ def stdlib_suites(ctx):
     alpha = ["/", "%", "4", "1", "a", "F", "?", "#", ";", ":", " ", "\u00e9", "z"]
     L = ctx.n(3, 4)
     small = list(X.small_strings(alpha, L))
-    rnd = [X.rand_url(rng, 12) for _ in range(ctx.n(1000, 40000))]
-    names = [X.rand_component(rng, 10, allow_dot_start=True) for _ in range(ctx.n(600, 20000))]
+    rnd = [X.rand_url(rng, 12) for _ in range(ctx.n(1000, 20000))]
+    names = [X.rand_component(rng, 10, allow_dot_start=True) for _ in range(ctx.n(600, 10000))]
     # every code point class, incl. surrogates (quote raises) and the boundaries of the UTF-8 lengths
     cps = [0, 1, 0x1f, 0x20, 0x25, 0x2f, 0x7e, 0x7f, 0x80, 0x7ff, 0x800, 0xfff, 0x1000, 0xd7ff, 0xd800, 0xdbff, 0xdc00, 0xdfff,
            0xe000, 0xfffd, 0xffff, 0x10000, 0x3ffff, 0x40000, 0x10ffff]
@@ -180,7 +180,7 @@ def stdlib_suites(ctx):
     rng.shuffle(tri)
     rng.shuffle(quad)
     byte_cases += tri[:ctx.n(1200, len(tri))] + quad[:ctx.n(800, len(quad))]
-    byte_cases += [X.rand_bytes_utf8ish(rng) for _ in range(ctx.n(1000, 30000))]
+    byte_cases += [X.rand_bytes_utf8ish(rng) for _ in range(ctx.n(1000, 15000))]
 
     run_suite(ctx, "utf8_encode", "utf8_encode", [(s, py_utf8_encode(s)) for s in cp_strings + names[:300]],
               enc_str, enc_optbytes, "eq_opt_str")
@@ -202,18 +202,18 @@ def stdlib_suites(ctx):
         if q and rng.random() < 0.5:
             i = rng.randrange(len(q))
             unq.append(q[:i] + q[i + 1:])
-    for b in byte_cases[:ctx.n(1800, 40000)]:
+    for b in byte_cases[:ctx.n(1800, 20000)]:
         unq.append("".join("%%%02X" % x for x in b))
         unq.append("".join(rng.choice(["%%%02x" % x, chr(x) if x < 128 else "%%%02X" % x]) for x in b))
     run_suite(ctx, "unquote", "unquote", [(s, urllib.parse.unquote(s)) for s in unq], enc_str, enc_str, "eqs")
-    ascii_runs = [s for s in unq if s.isascii()][:ctx.n(3000, 40000)]
+    ascii_runs = [s for s in unq if s.isascii()][:ctx.n(3000, 30000)]
     run_suite(ctx, "unquote_to_bytes", "unquote_to_bytes",
               [(s.encode("ascii"), urllib.parse.unquote_to_bytes(s)) for s in ascii_runs], enc_bytes, enc_bytes, "eqs",
               key=lambda b: b.hex())
     # urlparse: scheme / netloc / path
     urls = small + rnd
     hosts = ["127.0.0.1", "localhost:5232", "h", "u:p@h:80", "h:", "h:x", "[::1]", "[::1", "::1]", "h\u00e9", "", "a@b@c:1", "H:443"]
-    for _ in range(ctx.n(800, 20000)):
+    for _ in range(ctx.n(800, 10000)):
         urls.append(rng.choice(["http://", "https://", "//", "HtTp://", "ftp://", "x-y+z.1://", "1a://", "mailto:", "", "http:/", "http:",
                                  " http://", "ht\ntp://", "tel://", "dav://"])
                     + rng.choice(hosts) + X.rand_url(rng, 8))
@@ -298,7 +298,7 @@ def impl_front(srvs, c, method):
 def front_suites(ctx):
     srvs = {}
     try:
-        cases = gen_front_cases(ctx, ctx.n(1500, 30000))
+        cases = gen_front_cases(ctx, ctx.n(1500, 20000))
         out_front, out_get = [], []
         for c in cases:
             st, h, body, seen = impl_front(srvs, c, "PROBE")
@@ -332,7 +332,7 @@ def front_suites(ctx):
 
 def pathinfo_suite(ctx, strs):
     rng = ctx.rng
-    targets = [s for s in strs if all(ord(ch) < 256 for ch in s)][:ctx.n(4000, 60000)]
+    targets = [s for s in strs if all(ord(ch) < 256 for ch in s)][:ctx.n(4000, 40000)]
     for _ in range(ctx.n(500, 10000)):
         p = "/" + "/".join(X.rand_component(rng) for _ in range(rng.randint(1, 3)))
         q = urllib.parse.quote(p)
@@ -361,7 +361,7 @@ def make_href_suite(ctx):
 def multiget_suite(ctx):
     from vlib.impl import Server, event
     rng = ctx.rng
-    n = ctx.n(700, 15000)
+    n = ctx.n(700, 10000)
     names = ["a b.ics", "é;x?.ics"]
     with X.fast_server(CONF) as srv:
         srv.mkcol("/u/")
@@ -444,7 +444,7 @@ def destination_suite(ctx):
     from vlib.impl import Server, event
     from radicale.app import move as move_mod
     rng = ctx.rng
-    n = ctx.n(500, 10000)
+    n = ctx.n(500, 6000)
     with X.fast_server(CONF) as srv:
         srv.mkcol("/u/")
         srv.mkcalendar("/u/cal/")
@@ -894,11 +894,11 @@ def monitors(ctx):
     scs = list(FIXED_SCENARIOS)
     for mode in X.MODES:
         scs.append(gen_scenario(rng, mode))
-    while len(scs) < ctx.n(150, 4000):
+    while len(scs) < ctx.n(150, 3000):
         scs.append(gen_scenario(rng))
     total = dict(hrefs=0, requests=0)
     seen_steps = set()
-    for sc in scs:
+    for idx, sc in enumerate(scs):
         fails, stats, log = run_scenario(sc)
         ctx.case(("scenario", json.dumps(sc, sort_keys=True)), nontrivial=sc_nontrivial(sc))
         ctx.count("scenario:" + sc["mode"])
@@ -906,9 +906,10 @@ def monitors(ctx):
             total[k] += stats.get(k, 0)
         for fail in fails:
             ctx.count("monitor-failure:" + fail.step)
-            if fail.step in seen_steps:
-                continue                      # one replay per kind of failure
-            seen_steps.add(fail.step)
+            key = (fail.step, idx if idx < len(FIXED_SCENARIOS) else None)
+            if key in seen_steps or len(seen_steps) >= 10:
+                continue                      # one replay per kind of failure (and per regression scenario)
+            seen_steps.add(key)
             ctx.violation("C18 monitor: %s (mode %s, prefix %r)" % (fail.step, sc["mode"], sc["prefix"]),
                           dict(scenario=sc, step=fail.step, detail=fail.info, last_requests=log,
                                note="replay: ./check C18 --replay <this file> re-runs the scenario against VERIF_REPO"))
